@@ -12,6 +12,13 @@ for s in seeds:
     if os.path.exists(meta_p):
         props = json.load(open(meta_p)).get("check_with", props)
     assert subprocess.run(["git", "-C", "/repo", "status", "--porcelain", "--untracked-files=no"], capture_output=True, text=True).stdout.strip() == "", "/repo not clean"
+    # evidence files written while a seed is applied describe the seeded tree: keep the clean ones
+    import shutil, tempfile
+    ev_dir = os.path.join(V, "evidence")
+    bak = tempfile.mkdtemp(prefix="evbak_")
+    for f in os.listdir(ev_dir):
+        if f.endswith(".json"):
+            shutil.copy2(os.path.join(ev_dir, f), os.path.join(bak, f))
     a = subprocess.run(["git", "-C", "/repo", "apply", os.path.join(d, "patch.diff")], capture_output=True, text=True)
     res = {"seed": s, "applies": a.returncode == 0, "checks": {}}
     try:
@@ -21,6 +28,9 @@ for s in seeds:
                 res["checks"][p] = {"rc": r.returncode, "lines": [l for l in r.stdout.split("\n") if l.startswith(("VIOLATION", "UNDECIDED", "KNOWN"))][:6]}
     finally:
         subprocess.run(["git", "-C", "/repo", "checkout", "--", "."])
+        for f in os.listdir(bak):
+            shutil.copy2(os.path.join(bak, f), os.path.join(ev_dir, f))
+        shutil.rmtree(bak, ignore_errors=True)
     res["detected"] = any(c["rc"] == 1 for c in res["checks"].values())
     json.dump(res, open(os.path.join(d, "detect.json"), "w"), indent=1)
     print(s, "detected" if res["detected"] else "MISSED", {p: c["rc"] for p, c in res["checks"].items()})
